@@ -148,6 +148,7 @@ fn worker(args: &[String]) -> i32 {
     let mut samples: Vec<serde_json::Value> = vec![];
     let (mut steps, mut vtime, mut nontrivial, mut cap_hits, mut hung, mut events) = (0u64, 0u64, 0u64, 0u64, 0u64, 0u64);
     let mut racing_runs = 0u64;
+    let mut outcomes: Vec<(u64, String)> = vec![];
     for index in start..start + count {
         let sc = make_scenario(&p, tier, base, index);
         let out = interp::run_scenario(&sc);
@@ -155,6 +156,10 @@ fn worker(args: &[String]) -> i32 {
         analysis::coverage_probes(&v);
         let vs = (p.check)(&v);
         let nt = (p.nontrivial)(&v);
+        if let Some(f) = p.outcome {
+            let rec = f(&v);
+            outcomes.push((index, format!("{:016x}", prop_salt(&rec))));
+        }
         for (k, n) in out.probes.iter().chain(log::take_probes().iter()) {
             *probes.entry(k.to_string()).or_insert(0) += n;
         }
@@ -213,6 +218,7 @@ fn worker(args: &[String]) -> i32 {
         "faults": faults, "probes": probes, "policies": policies, "racing_clock_runs": racing_runs,
         "steps": steps, "vtime_ns": vtime, "events": events, "cap_hits": cap_hits, "hung_runs": hung,
         "samples": samples,
+        "outcomes": outcomes,
         "wall_s": t0.elapsed().as_secs_f64(),
     });
     std::fs::write(outp, serde_json::to_vec(&res).unwrap()).unwrap();
@@ -320,6 +326,22 @@ fn show_cmd(args: &[String]) -> i32 {
     0
 }
 
+/// print the scenario of a run as JSON (first line) and its canonical outcome record
+fn outcome_cmd(args: &[String]) -> i32 {
+    let p = props::get(&args[0]).expect("unknown property");
+    let sc: Scenario = if args.len() >= 4 {
+        make_scenario(&p, &args[1], args[2].parse().unwrap(), args[3].parse().unwrap())
+    } else {
+        serde_json::from_slice(&std::fs::read(&args[1]).expect("cannot read scenario")).expect("bad scenario")
+    };
+    let out = interp::run_scenario(&sc);
+    let v = View::new(&sc, &out);
+    let rec = p.outcome.map(|f| f(&v)).unwrap_or_default();
+    let vs = (p.check)(&v);
+    println!("{}", serde_json::json!({"scenario": sc, "record": rec, "record_hash": format!("{:016x}", prop_salt(&rec)), "violations": vs}));
+    0
+}
+
 fn hashes_cmd(args: &[String]) -> i32 {
     let p = props::get(&args[0]).expect("unknown property");
     let tier = args[1].as_str();
@@ -348,6 +370,7 @@ fn main() {
         "replay" => replay_cmd(rest),
         "show" => show_cmd(rest),
         "hashes" => hashes_cmd(rest),
+        "outcome" => outcome_cmd(rest),
         "list" => {
             for p in props::all() {
                 println!(
